@@ -7,11 +7,12 @@ import Optyx.Drive.Jac
 import Optyx.Drive.State
 import Optyx.Drive.Api
 import Optyx.Drive.Solve
+import Optyx.Drive.Compile
 
 namespace Optyx.Drive
 
 def handlers : List (String → List Sexp → Option String) :=
-  [handleCore, LPNs.handleLP, LPNs.handleScipy, AnalysisNs.handleAnalysis, JacNs.handleJac, handleState, handleApi, handleSolve]
+  [handleCore, LPNs.handleLP, LPNs.handleScipy, AnalysisNs.handleAnalysis, JacNs.handleJac, handleState, handleApi, handleSolve, handleCompile]
 
 def dispatch (line : String) : String :=
   match Sexp.parseLine line with
